@@ -8,6 +8,23 @@ CHECKS = {
          "Every (PType,SType) pair, every session id per constructor, every status code, reject PType x SType x reasons, system-byte lane alphabet and the request-kind x response-constructor matrix are enumerated completely and each case is executed on the real constructors, Type(), ToBytes() and hsms.Parse and compared with an independent table of the HSMS header layout; thorough adds the full (PType,SType) x session product (4.3e9 cases).",
          "Trusted: Go toolchain. Headers longer than 10 bytes for the raw constructor are outside the stated domain and not judged.", "5/C14"),
 }
+CHECKS.update({
+ "C01": ("bounded-exhaustive round-trip exploration of the real encoder+decoder over headers x trees x sizes x 4 construction routes",
+         "All stream/function/wait-bit combinations, all 65536 session ids, the system-byte lane alphabet, every item tree of the scope (about 1e5 trees quick, 4e6 thorough, leaf alphabet with boundary values of all 14 formats incl. non-empty binary), deep trees to depth 8 and the 255|256 / 65535|65536 (thorough: 16777215) size boundaries for all 14 formats are each built through four routes (factories, template+fill, SML print/parse, decoder output), encoded, decoded by the real decoder, compared field by field and re-encoded twice.",
+         "Values of 4/8-byte formats are represented by boundary values only (C02 sweeps lanes/bits); random system bytes are replaced by the lane alphabet.", "5/C01"),
+ "C02": ("bounded-exhaustive enumeration of items/messages on the real encoder vs. independent reference encoder (R-enc)",
+         "Every tree of the scope, every value of the 1- and 2-byte formats, F4 sign x exponent x mantissa patterns with quarter-ulp roundings (thorough: all 2^32 F4 bit patterns), bit/lane/boundary/seeded patterns of I4/U4/I8/U8/F8, the header product, all session ids, and the waitbit x session x variables incompleteness product are built with the real factories and ToBytes() is compared byte-for-byte with a reference encoder written from the SEMI E5/E37 tables (F4 rounding via math/big).",
+         "Trusted: math/big rounding, the reference tables.", "5/C02"),
+ "C03": ("deviation-bounded exhaustive exploration of byte strings on the real decoder vs. strict reference decoder (R-dec)",
+         "Bound 0: every valid encoding of ~1e5 trees under every 1/2/3-length-byte assignment; bound 1: every single deviation (each truncation point, appended tails, every text byte position x all 255 other values, every length-field substitution at each width; header bytes x all values) of every small message; thorough adds bound 2 (pairs) and 27 length forms; plus all texts up to 2 (3) bytes over the full alphabet, up to 5 (6) over a 24-symbol format/length alphabet, and the PType x SType x body x W-bit header product. Each input is decoded by the real decoder and by an independent strict decoder; verdict, decoded tree, and re-encoding are compared.",
+         "A control message with a body is an either-cell (statement's two sentences conflict). Inputs are presented both as exact slices and as prefixes of larger buffers (spare capacity).", "5/C03"),
+ "C07": ("bounded-exhaustive hostile-input enumeration on the real decoder in rlimited workers with exact allocation accounting",
+         "Complete product format x length-byte count x declared length x bytes present x nesting depth x enclosing declared count, adversarial nested lists that each declare the bytes left, honest 2^k-byte items of every format, deep nesting to 2048, all 24-symbol texts up to 4 (5) bytes and all 2-byte texts with tails: each decoded in a worker subprocess (RLIMIT_AS 4 GiB, watchdog, death = violation after 5 confirmations) with runtime.MemStats.TotalAlloc delta required <= 64 KiB + 2048 B per input byte.",
+         "The two constants are measured (honest worst case 563 B/byte), not derived.", "5/C07"),
+ "C13": ("exhaustive sweep of the length-header routine via the verif hook + boundary enumeration of real items + decoder read-back",
+         "getHeaderBytes/getDataByteLength are swept for all 14 formats over every size 0..70000 and limit-70000..limit+64 plus lane patterns (thorough: EVERY size 0..16777215/w+64, 1.4e8 calls) against the reference header; real items are built by the factories at every 1|2|3-length-byte boundary and at limit-1, limit, limit+1 for all 14 formats (constructible iff n*w<=16777215, header exact, decoded count equal); the decoder reads back every payload length 0..1024, 65280..65792 (thorough 0..70000) and 125 lane lengths in every admissible length form.",
+         "Decoder-side sweep is complete to 70000 only (needs real payloads); lists of 16777215 children only in thorough.", "5/C13"),
+})
 NA = {}
 hooks_commits = subprocess.run(["git", "-C", "/repo", "log", "--format=%H", "--grep=^verif hook"], capture_output=True, text=True).stdout.split()
 m = {
